@@ -53,7 +53,11 @@ class boolean(int, BasicView):
 
     @classmethod
     def decode_bytes(cls: Type[BoolV], bytez: bytes) -> BoolV:
-        return cls(bytez != b"\x00")
+        if bytez == b"\x01":
+            return cls(True)
+        if bytez == b"\x00":
+            return cls(False)
+        raise ValueError(f"invalid boolean encoding: 0x{bytez.hex()}")
 
     @classmethod
     def from_obj(cls: Type[BoolV], obj: ObjType) -> BoolV:
